@@ -14,6 +14,7 @@ package main
 import (
 	"flag"
 	"fmt"
+	"sort"
 	"strings"
 
 	"go.starlark.net/starlark"
@@ -186,6 +187,7 @@ type Stmt struct {
 	Mut  string
 	Name string // builtin expression / push-iterator API / starargs callee
 	Exit string // pushiter: full break panic create twice
+	ID   int
 	Body []Stmt
 }
 
@@ -339,26 +341,148 @@ type expect struct {
 	Locked bool   `json:"locked"`
 }
 type emitter struct {
-	kinds   []int
-	frozen  []bool
-	len     []int // expected length of each collection
-	lock    []int // static nesting of live iterators over each collection
-	marker  int
+	kinds    []int
+	frozen   []bool
+	len      []int // expected length of each collection
+	lock     []int // static nesting of live iterators over each collection
 	nattempt int
-	nvar    int
-	ndef    int
-	defs    []string // nested function definitions (emitted at the top of main)
-	expects []expect
-	tags    map[string]bool
-	inDef   bool
+	expects  []expect
+	tags     map[string]bool
 }
 
-func (e *emitter) newMarker() (lit string, z int) {
-	e.marker++
-	return fmt.Sprintf("\"M%d\"", e.marker), 1000 + e.marker
+func assignIDs(stmts []Stmt, next *int) {
+	for i := range stmts {
+		*next++
+		stmts[i].ID = *next
+		assignIDs(stmts[i].Body, next)
+	}
 }
-func (e *emitter) cv(c int) string { return fmt.Sprintf("c%d", c) }
 
+func cv(c int) string { return fmt.Sprintf("c%d", c) }
+
+func (e *emitter) mutSrc(s Stmt) (src, coq string, md mutDef) {
+	md = findMut(e.kinds[s.C], s.Mut)
+	lit := fmt.Sprintf("\"M%d\"", s.ID)
+	src = strings.ReplaceAll(strings.ReplaceAll(md.tmpl, "%c", cv(s.C)), "%m", lit)
+	coq = strings.ReplaceAll(md.coq, "%m", fmt.Sprint(1000+s.ID))
+	return
+}
+
+// ---- source ----
+func (e *emitter) exprSrc(s Stmt) string {
+	switch s.K {
+	case "attempt":
+		return fmt.Sprintf("attempt(%d, \"%s\")", s.C, s.Mut)
+	case "mutate":
+		src, _, _ := e.mutSrc(s)
+		return src
+	case "fail":
+		return "fail(\"boom\")"
+	case "panic":
+		return "boom()"
+	case "nop":
+		return "None"
+	}
+	panic("not an expression: " + s.K)
+}
+
+func (e *emitter) render(stmts []Stmt, ind string, sb *strings.Builder, loopVar string) {
+	if len(stmts) == 0 {
+		sb.WriteString(ind + "pass\n")
+	}
+	for _, s := range stmts {
+		switch s.K {
+		case "attempt", "mutate", "fail", "panic":
+			sb.WriteString(ind + e.exprSrc(s) + "\n")
+		case "nop":
+			sb.WriteString(ind + "pass\n")
+		case "break", "continue":
+			sb.WriteString(ind + s.K + "\n")
+		case "return":
+			sb.WriteString(ind + "return 1\n")
+		case "if":
+			fmt.Fprintf(sb, "%sif %s == \"%s\":\n", ind, loopVar, base[s.At])
+			e.render(s.Body, ind+"    ", sb, loopVar)
+		case "for":
+			v := fmt.Sprintf("x%d", s.ID)
+			fmt.Fprintf(sb, "%sfor %s in %s:\n", ind, v, cv(s.C))
+			e.render(s.Body, ind+"    ", sb, v)
+		case "comp", "dictcomp":
+			cl := fmt.Sprintf("for x%d in %s", s.ID, cv(s.C))
+			key := fmt.Sprintf("x%d", s.ID)
+			if s.C2 >= 0 {
+				cl += fmt.Sprintf(" for y%d in %s", s.ID, cv(s.C2))
+				key = fmt.Sprintf("x%d + y%d", s.ID, s.ID)
+			}
+			if s.K == "comp" {
+				fmt.Fprintf(sb, "%sr = [%s %s]\n", ind, e.exprSrc(s.Body[0]), cl)
+			} else {
+				fmt.Fprintf(sb, "%sr = {%s: %s %s}\n", ind, key, e.exprSrc(s.Body[0]), cl)
+			}
+		case "unpack":
+			var names []string
+			for i := 0; i < s.N; i++ {
+				names = append(names, fmt.Sprintf("u%d", i))
+			}
+			lhs := strings.Join(names, ", ")
+			if s.N == 1 {
+				lhs = "(u0,)"
+			}
+			fmt.Fprintf(sb, "%s%s = %s\n", ind, lhs, cv(s.C))
+		case "starargs":
+			if s.Name == "builtin" {
+				fmt.Fprintf(sb, "%sident(*%s)\n", ind, cv(s.C))
+			} else {
+				fmt.Fprintf(sb, "%sf%d(*%s)\n", ind, s.ID, cv(s.C))
+			}
+		case "call":
+			fmt.Fprintf(sb, "%sf%d()\n", ind, s.ID)
+		case "builtin":
+			be := findBexpr(s.Name)
+			src := strings.ReplaceAll(strings.ReplaceAll(be.tmpl, "%c", cv(s.C)), "%f", fmt.Sprintf("f%d", s.ID))
+			fmt.Fprintf(sb, "%sr = %s\n", ind, src)
+		case "pushiter":
+			fmt.Fprintf(sb, "%sgoiter(%s, \"%s\", \"%s\", f%d)\n", ind, cv(s.C), s.Name, s.Exit, s.ID)
+		default:
+			panic("unknown stmt " + s.K)
+		}
+	}
+}
+
+// the nested function definitions, hoisted to the top of main
+func (e *emitter) defs(stmts []Stmt, sb *strings.Builder) {
+	for _, s := range stmts {
+		params := ""
+		isDef := false
+		switch s.K {
+		case "starargs":
+			isDef, params = s.Name != "builtin", "*a"
+		case "call":
+			isDef = true
+		case "builtin":
+			isDef, params = findBexpr(s.Name).cb, "k"
+		case "pushiter":
+			isDef, params = true, "k"
+		}
+		e.defs(s.Body, sb)
+		if isDef {
+			fmt.Fprintf(sb, "    def f%d(%s):\n", s.ID, params)
+			e.render(s.Body, "        ", sb, "")
+			sb.WriteString("        return 0\n")
+		}
+	}
+}
+
+func findBexpr(name string) bexpr {
+	for _, b := range bexprs {
+		if b.name == name {
+			return b
+		}
+	}
+	panic("no builtin expression " + name)
+}
+
+// ---- path ----
 const (
 	cNext = iota
 	cBreak
@@ -371,24 +495,37 @@ const (
 // lockedNow: would a mutation of c be refused now (per the property text)?
 func (e *emitter) lockedNow(c int) bool { return e.frozen[c] || e.lock[c] > 0 }
 
-// emit a block; returns control
-func (e *emitter) block(stmts []Stmt, ind string, sb *strings.Builder, p *path, elem int) int {
-	wrote := false
+func (e *emitter) walk(stmts []Stmt, p *path, elem int) int {
 	for _, s := range stmts {
-		ctl := e.stmt(s, ind, sb, p, elem)
-		wrote = true
-		if ctl != cNext {
+		if ctl := e.step(s, p, elem); ctl != cNext {
 			return ctl
 		}
-	}
-	if !wrote {
-		sb.WriteString(ind + "pass\n")
 	}
 	return cNext
 }
 
-// an expression statement usable inside comprehensions / lambdas; returns (expr, ctl)
-func (e *emitter) expr(s Stmt, p *path) (string, int) {
+// run the body of a nested function as a new frame
+func (e *emitter) frame(body []Stmt) (*path, int) {
+	sub := &path{exit: "ORet"}
+	ctl := e.walk(body, sub, -1)
+	switch ctl {
+	case cErr:
+		if sub.exit == "ORet" {
+			sub.exit = "OErr"
+		}
+		return sub, cErr
+	case cPanic:
+		sub.exit = "OPanic"
+		return sub, cPanic
+	}
+	return sub, cNext
+}
+
+func (e *emitter) step(s Stmt, p *path, elem int) int {
+	kind := -1
+	if s.C >= 0 && s.C < len(e.kinds) {
+		kind = e.kinds[s.C]
+	}
 	switch s.K {
 	case "attempt":
 		e.nattempt++
@@ -400,146 +537,57 @@ func (e *emitter) expr(s Stmt, p *path) (string, int) {
 			e.len[s.C]++ // only "add" is generated when not locked
 		}
 		p.items = append(p.items, item{kind: "builtin", h: &hpath{items: []hitem{{kind: "attempt", s: fmt.Sprintf("HAttempt %d (%s)", s.C, m)}}, exit: "ORet"}})
-		e.tags["attempt:"+kindName[e.kinds[s.C]]+":"+s.Mut] = true
-		return fmt.Sprintf("attempt(%d, \"%s\")", s.C, s.Mut), cNext
+		e.tags["attempt:"+kindName[kind]+":"+s.Mut] = true
+		return cNext
 	case "mutate":
-		md := findMut(e.kinds[s.C], s.Mut)
-		lit, z := e.newMarker()
-		src := strings.ReplaceAll(strings.ReplaceAll(md.tmpl, "%c", e.cv(s.C)), "%m", lit)
-		cq := strings.ReplaceAll(md.coq, "%m", fmt.Sprint(z))
+		_, cq, md := e.mutSrc(s)
 		locked := e.lockedNow(s.C)
 		if md.op {
 			p.items = append(p.items, item{kind: "act", s: fmt.Sprintf("SMutate %d (%s)", s.C, cq)})
 		} else {
 			p.items = append(p.items, item{kind: "builtin", h: &hpath{items: []hitem{{kind: "mutate", s: fmt.Sprintf("HMutate %d (%s)", s.C, cq)}}, exit: "ORet"}})
 		}
-		e.tags["mutate:"+kindName[e.kinds[s.C]]+":"+s.Mut+":"+map[bool]string{true: "locked", false: "free"}[locked]] = true
+		e.tags["mutate:"+kindName[kind]+":"+s.Mut+":"+map[bool]string{true: "locked", false: "free"}[locked]] = true
 		if locked {
-			return src, cErr
+			p.exit = "OErr"
+			return cErr
 		}
 		e.len[s.C]++
-		return src, cNext
+		return cNext
 	case "fail":
 		p.exit = "OErr"
-		return "fail(\"boom\")", cErr
+		return cErr
 	case "panic":
 		p.items = append(p.items, item{kind: "builtin", h: &hpath{exit: "OPanic"}})
 		p.exit = "OPanic"
-		return "boom()", cPanic
+		return cPanic
 	case "nop":
 		p.items = append(p.items, item{kind: "act", s: "SNop"})
-		return "None", cNext
-	}
-	panic("not an expression: " + s.K)
-}
-
-// define a nested function whose body is `body`, return its name and its path builder
-func (e *emitter) def(body []Stmt, params string, elem int) (name string, run func() (*path, int)) {
-	e.ndef++
-	name = fmt.Sprintf("f%d", e.ndef)
-	// the body is emitted once, when first "called"; every call re-runs the path builder
-	var text strings.Builder
-	first := true
-	run = func() (*path, int) {
-		sub := &path{exit: "ORet"}
-		var sb strings.Builder
-		saveDef := e.inDef
-		e.inDef = true
-		// expected lengths / lock depths evolve with each call, the source does not
-		ctl := e.block(body, "        ", &sb, sub, elem)
-		e.inDef = saveDef
-		if first {
-			first = false
-			fmt.Fprintf(&text, "    def %s(%s):\n%s        return 0\n", name, params, sb.String())
-			e.defs = append(e.defs, text.String())
-		}
-		switch ctl {
-		case cErr:
-			if sub.exit == "ORet" {
-				sub.exit = "OErr"
-			}
-		case cPanic:
-			sub.exit = "OPanic"
-		}
-		return sub, ctl
-	}
-	return
-}
-
-func callCtl(ctl int) int {
-	if ctl == cErr || ctl == cPanic {
-		return ctl
-	}
-	return cNext
-}
-
-func (e *emitter) stmt(s Stmt, ind string, sb *strings.Builder, p *path, elem int) int {
-	kind := -1
-	if s.C >= 0 && s.C < len(e.kinds) {
-		kind = e.kinds[s.C]
-	}
-	switch s.K {
-	case "attempt", "mutate", "fail", "panic", "nop":
-		src, ctl := e.expr(s, p)
-		sb.WriteString(ind + src + "\n")
-		return ctl
+		return cNext
 	case "break":
-		sb.WriteString(ind + "break\n")
 		return cBreak
 	case "continue":
-		sb.WriteString(ind + "continue\n")
 		return cContinue
 	case "return":
-		sb.WriteString(ind + "return 1\n")
 		p.exit = "ORet"
 		return cReturn
-	case "if": // guard on the element of the innermost loop
-		var body strings.Builder
-		// the source carries the guard; the path only when the guard holds
+	case "if":
 		if elem == s.At {
-			ctl := e.block(s.Body, ind+"    ", &body, p, elem)
-			fmt.Fprintf(sb, "%sif x%d == \"%s\":\n%s", ind, e.nvar, base[s.At%len(base)], body.String())
-			return ctl
+			return e.walk(s.Body, p, elem)
 		}
-		// not taken on this iteration: emit the source with a scratch emitter state
-		save := *e
-		saveLen, saveLock := append([]int{}, e.len...), append([]int{}, e.lock...)
-		scratch := &path{exit: "ORet"}
-		e.block(s.Body, ind+"    ", &body, scratch, s.At)
-		nd, defs, tags := e.ndef, e.defs, e.tags
-		*e = save
-		e.len, e.lock = saveLen, saveLock
-		e.ndef, e.defs, e.tags = nd, defs, tags
-		e.marker = save.marker
-		fmt.Fprintf(sb, "%sif x%d == \"%s\":\n%s", ind, e.nvar, base[s.At%len(base)], body.String())
 		return cNext
 	case "for":
-		e.nvar++
-		v := e.nvar
 		n := e.len[s.C]
 		e.tags["for:"+kindName[kind]] = true
 		if e.lock[s.C] > 0 {
 			e.tags["nested-same:"+kindName[kind]] = true
 		}
-		p.items = append(p.items, item{kind: "act", s: fmt.Sprintf("SIterPush (Some %d)", s.C)})
+		p.items = append(p.items, item{kind: "act", s: fmt.Sprintf("SIterPush (Some %d%%nat)", s.C)})
 		e.lock[s.C]++
-		// the source of the body is the text produced by the last iteration that runs
-		// (identical for every iteration but for `if` guards, which are emitted either way)
-		var bodySrc string
 		ctl := cNext
-		ran := false
 		for i := 0; i < n; i++ {
 			p.items = append(p.items, item{kind: "act", s: "SIterJmp"})
-			var b strings.Builder
-			e.nvar = v
-			mk := e.marker
-			ctl = e.block(s.Body, ind+"    ", &b, p, i)
-			if !ran {
-				bodySrc = b.String()
-				ran = true
-			} else {
-				_ = mk
-			}
+			ctl = e.walk(s.Body, p, i)
 			if ctl == cContinue {
 				ctl = cNext
 			}
@@ -547,56 +595,34 @@ func (e *emitter) stmt(s Stmt, ind string, sb *strings.Builder, p *path, elem in
 				break
 			}
 		}
-		if !ran {
-			var b strings.Builder
-			save := *e
-			saveLen, saveLock := append([]int{}, e.len...), append([]int{}, e.lock...)
-			e.block(s.Body, ind+"    ", &b, &path{exit: "ORet"}, -1)
-			nd, defs, tags := e.ndef, e.defs, e.tags
-			*e = save
-			e.len, e.lock = saveLen, saveLock
-			e.ndef, e.defs, e.tags = nd, defs, tags
-			bodySrc = b.String()
-		}
-		fmt.Fprintf(sb, "%sfor x%d in %s:\n%s", ind, v, e.cv(s.C), bodySrc)
-		e.nvar = v
+		e.lock[s.C]--
 		switch ctl {
 		case cNext:
 			p.items = append(p.items, item{kind: "act", s: "SIterJmp"}, item{kind: "act", s: "SIterPop"})
-			e.lock[s.C]--
 			return cNext
 		case cBreak:
 			p.items = append(p.items, item{kind: "act", s: "SIterPop"})
-			e.lock[s.C]--
 			e.tags["exit:break"] = true
 			return cNext
-		default:
-			// return / error / panic leave the loop without ITERPOP: the deferred clean-up releases it
-			e.lock[s.C]--
-			e.tags["exit:"+map[int]string{cReturn: "return", cErr: "error", cPanic: "panic"}[ctl]+"-in-loop"] = true
-			return ctl
 		}
+		// return / error / panic leave the loop without ITERPOP: the deferred clean-up releases it
+		e.tags["exit:"+map[int]string{cReturn: "return", cErr: "error", cPanic: "panic"}[ctl]+"-in-loop"] = true
+		return ctl
 	case "comp", "dictcomp":
-		// [BODY for x in C (for y in C2)]: the body is one expression statement
-		e.nvar++
-		v := e.nvar
 		e.tags[s.K+":"+kindName[kind]] = true
 		clauses := []int{s.C}
 		if s.C2 >= 0 {
 			clauses = append(clauses, s.C2)
 			e.tags["comp-nested-clauses"] = true
 		}
-		var bodyExpr string
 		var rec func(ci int) int
 		rec = func(ci int) int {
 			if ci == len(clauses) {
-				src, ctl := e.expr(s.Body[0], p)
-				bodyExpr = src
-				return ctl
+				return e.step(s.Body[0], p, -1)
 			}
 			c := clauses[ci]
 			n := e.len[c]
-			p.items = append(p.items, item{kind: "act", s: fmt.Sprintf("SIterPush (Some %d)", c)})
+			p.items = append(p.items, item{kind: "act", s: fmt.Sprintf("SIterPush (Some %d%%nat)", c)})
 			e.lock[c]++
 			for i := 0; i < n; i++ {
 				p.items = append(p.items, item{kind: "act", s: "SIterJmp"})
@@ -610,50 +636,21 @@ func (e *emitter) stmt(s Stmt, ind string, sb *strings.Builder, p *path, elem in
 			return cNext
 		}
 		ctl := rec(0)
-		if bodyExpr == "" { // empty collection: body never evaluated; emit it with scratch state
-			save := *e
-			saveLen, saveLock := append([]int{}, e.len...), append([]int{}, e.lock...)
-			bodyExpr, _ = e.expr(s.Body[0], &path{exit: "ORet"})
-			nd, defs, tags := e.ndef, e.defs, e.tags
-			*e = save
-			e.len, e.lock = saveLen, saveLock
-			e.ndef, e.defs, e.tags = nd, defs, tags
-		}
-		cl := fmt.Sprintf("for x%d in %s", v, e.cv(s.C))
-		if s.C2 >= 0 {
-			cl += fmt.Sprintf(" for y%d in %s", v, e.cv(s.C2))
-		}
-		if s.K == "comp" {
-			fmt.Fprintf(sb, "%sr = [%s %s]\n", ind, bodyExpr, cl)
-		} else {
-			key := fmt.Sprintf("x%d", v)
-			if s.C2 >= 0 {
-				key = fmt.Sprintf("x%d + y%d", v, v)
-			}
-			fmt.Fprintf(sb, "%sr = {%s: %s %s}\n", ind, key, bodyExpr, cl)
-		}
 		if ctl != cNext {
 			e.tags["exit:"+map[int]string{cErr: "error", cPanic: "panic"}[ctl]+"-in-comp"] = true
 		}
 		return ctl
 	case "unpack":
-		var names []string
-		for i := 0; i < s.N; i++ {
-			names = append(names, fmt.Sprintf("u%d", i))
-		}
-		lhs := strings.Join(names, ", ")
-		if s.N == 1 {
-			lhs = "(u0,)"
-		}
-		fmt.Fprintf(sb, "%s%s = %s\n", ind, lhs, e.cv(s.C))
 		p.items = append(p.items, item{kind: "act", s: fmt.Sprintf("SUnpack %d %d", s.C, s.N)})
 		n := e.len[s.C]
 		switch {
 		case s.N < n:
 			e.tags["unpack:"+kindName[kind]+":too-many"] = true
+			p.exit = "OErr"
 			return cErr
 		case s.N > n:
 			e.tags["unpack:"+kindName[kind]+":too-few"] = true
+			p.exit = "OErr"
 			return cErr
 		}
 		e.tags["unpack:"+kindName[kind]+":exact"] = true
@@ -662,57 +659,51 @@ func (e *emitter) stmt(s Stmt, ind string, sb *strings.Builder, p *path, elem in
 		p.items = append(p.items, item{kind: "act", s: fmt.Sprintf("SStarArgs %d", s.C)})
 		e.tags["starargs:"+kindName[kind]+":"+s.Name] = true
 		if s.Name == "builtin" {
-			fmt.Fprintf(sb, "%sident(*%s)\n", ind, e.cv(s.C))
 			p.items = append(p.items, item{kind: "builtin", h: &hpath{exit: "ORet"}})
 			return cNext
 		}
-		name, run := e.def(s.Body, "*a", -1)
-		sub, ctl := run()
-		fmt.Fprintf(sb, "%s%s(*%s)\n", ind, name, e.cv(s.C))
+		sub, ctl := e.frame(s.Body)
 		p.items = append(p.items, item{kind: "call", sub: sub})
-		return callCtl(ctl)
+		if ctl != cNext {
+			p.exit = sub.exit
+		}
+		return ctl
 	case "call":
-		name, run := e.def(s.Body, "", -1)
-		sub, ctl := run()
-		fmt.Fprintf(sb, "%s%s()\n", ind, name)
+		sub, ctl := e.frame(s.Body)
 		p.items = append(p.items, item{kind: "call", sub: sub})
 		e.tags["nested-call"] = true
-		return callCtl(ctl)
-	case "builtin":
-		var be bexpr
-		for _, b := range bexprs {
-			if b.name == s.Name {
-				be = b
-			}
+		if ctl != cNext {
+			p.exit = sub.exit
 		}
+		return ctl
+	case "builtin":
+		be := findBexpr(s.Name)
 		e.tags["builtin:"+be.name+":"+kindName[kind]] = true
 		h := &hpath{exit: "ORet"}
 		h.items = append(h.items, hitem{kind: "iterdefer", s: fmt.Sprintf("HIterDefer %d", s.C)})
-		src := strings.ReplaceAll(be.tmpl, "%c", e.cv(s.C))
 		ctl := cNext
 		if be.cb {
-			name, run := e.def(s.Body, "k", -1)
-			src = strings.ReplaceAll(src, "%f", name)
 			e.lock[s.C]++
 			for i := 0; i < e.len[s.C]; i++ {
-				sub, c := run()
+				sub, c := e.frame(s.Body)
 				h.items = append(h.items, hitem{kind: "call", sub: sub})
-				if c == cErr || c == cPanic {
+				if c != cNext {
 					ctl = c
-					h.exit = map[int]string{cErr: "OErr", cPanic: "OPanic"}[c]
+					h.exit = sub.exit
 					e.tags["exit:"+map[int]string{cErr: "error", cPanic: "panic"}[c]+"-in-callback"] = true
 					break
 				}
 			}
 			e.lock[s.C]--
 		}
-		fmt.Fprintf(sb, "%sr = %s\n", ind, src)
 		p.items = append(p.items, item{kind: "builtin", h: h})
+		if ctl != cNext {
+			p.exit = h.exit
+		}
 		return ctl
 	case "pushiter":
 		// goiter(c, api, exit, cb): host code ranging over a Go push iterator
 		e.tags["pushiter:"+s.Name+":"+kindName[kind]+":"+s.Exit] = true
-		name, run := e.def(s.Body, "k", -1)
 		h := &hpath{exit: "ORet"}
 		ctl := cNext
 		if s.Exit != "create" {
@@ -721,6 +712,8 @@ func (e *emitter) stmt(s Stmt, ind string, sb *strings.Builder, p *path, elem in
 				rounds = 2
 			}
 			for r := 0; r < rounds && ctl == cNext; r++ {
+				// (a second range starts after the first has released the collection; the model's
+				// defers run when the built-in returns, which gives the same final state)
 				h.items = append(h.items, hitem{kind: "iterdefer", s: fmt.Sprintf("HIterDefer %d", s.C)})
 				e.lock[s.C]++
 				for i := 0; i < e.len[s.C]; i++ {
@@ -732,24 +725,21 @@ func (e *emitter) stmt(s Stmt, ind string, sb *strings.Builder, p *path, elem in
 						h.exit = "OPanic"
 						break
 					}
-					sub, c := run()
+					sub, c := e.frame(s.Body)
 					h.items = append(h.items, hitem{kind: "call", sub: sub})
-					if c == cErr || c == cPanic {
+					if c != cNext {
 						ctl = c
-						h.exit = map[int]string{cErr: "OErr", cPanic: "OPanic"}[c]
+						h.exit = sub.exit
 						break
 					}
 				}
 				e.lock[s.C]--
-				// a second range starts after the first has released the collection; the model's
-				// defers run at the end of the built-in, which gives the same final state
 			}
-		} else {
-			run() // define the callback; it is never called
-			h = &hpath{exit: "ORet"}
 		}
-		fmt.Fprintf(sb, "%sgoiter(%s, \"%s\", \"%s\", %s)\n", ind, e.cv(s.C), s.Name, s.Exit, name)
 		p.items = append(p.items, item{kind: "builtin", h: h})
+		if ctl != cNext {
+			p.exit = h.exit
+		}
 		return ctl
 	}
 	panic("unknown stmt " + s.K)
@@ -1033,9 +1023,10 @@ func build(sc scenario) (src, coq string, expects []expect, tags []string) {
 	for i := range e.len {
 		e.len[i] = len(base)
 	}
+	next := 0
+	assignIDs(sc.body, &next)
 	p := &path{exit: "ORet"}
-	var sb strings.Builder
-	ctl := e.block(sc.body, "    ", &sb, p, -1)
+	ctl := e.walk(sc.body, p, -1)
 	switch ctl {
 	case cErr:
 		if p.exit == "ORet" {
@@ -1048,7 +1039,10 @@ func build(sc scenario) (src, coq string, expects []expect, tags []string) {
 	for i := range sc.kinds {
 		params = append(params, fmt.Sprintf("c%d", i))
 	}
-	src = "def main(" + strings.Join(params, ", ") + "):\n" + strings.Join(e.defs, "") + sb.String() + "    return 0\n"
+	var defs, body strings.Builder
+	e.defs(sc.body, &defs)
+	e.render(sc.body, "    ", &body, "")
+	src = "def main(" + strings.Join(params, ", ") + "):\n" + defs.String() + body.String() + "    return 0\n"
 	for t := range e.tags {
 		tags = append(tags, t)
 	}
@@ -1204,7 +1198,22 @@ func main() {
 			continue
 		}
 		viol := oracle(res, sc.frozen, expects, true)
-		hx.Emit(line{Kind: "scenario", ID: id, Family: sc.family, Tags: tags, Src: src, Coq: coq, Kinds: sc.kinds, Frozen: sc.frozen, Expects: expects, Res: &res, Viol: viol, VKey: sc.family})
+		vkey := sc.family
+		if sc.family == "random" {
+			// name the suspicious constructs present, so that different defects get different keys
+			var sus []string
+			for _, t := range tags {
+				if strings.HasSuffix(t, ":too-many") || (strings.HasPrefix(t, "pushiter:Elements:dict")) {
+					sus = append(sus, t)
+				}
+			}
+			sort.Strings(sus)
+			if len(sus) > 2 {
+				sus = sus[:2]
+			}
+			vkey = "random:" + strings.Join(sus, "+")
+		}
+		hx.Emit(line{Kind: "scenario", ID: id, Family: sc.family, Tags: tags, Src: src, Coq: coq, Kinds: sc.kinds, Frozen: sc.frozen, Expects: expects, Res: &res, Viol: viol, VKey: vkey})
 		// step-limit cancellation at step indices of this call
 		T := res.Steps
 		if T == 0 {
@@ -1231,7 +1240,7 @@ func main() {
 			if r2.Outcome != "cancelled" && r2.Outcome != "panic" && r2.Outcome != res.Outcome {
 				v = fmt.Sprintf("limit %d of %d: outcome %s", n, T, r2.Outcome)
 			}
-			l := line{Kind: "cancel", ID: id, Family: sc.family, Kinds: sc.kinds, Frozen: sc.frozen, Limit: n, Viol: v, VKey: "cancel:" + sc.family}
+			l := line{Kind: "cancel", ID: id, Family: sc.family, Kinds: sc.kinds, Frozen: sc.frozen, Limit: n, Viol: v, VKey: "cancel:" + vkey}
 			if v != "" {
 				l.Src = src
 				l.Res = &r2
